@@ -400,8 +400,17 @@ def r17_6(ctx, m):
             acc, kept = [src(e) for e in sels[0].value.args[1].elts], [src(e) for e in sels[0].value.args[2].elts]
             import re as _re
             roles = lambda names: [_re.sub(r"_k(p1)?", "", n_) for n_ in names]
-            has_f = any(r_ in ("f", "fun", "energy") for r_ in roles(acc))
-            same = roles(acc) == roles(kept) and all(a.endswith("kp1") or "kp1" in a for a in acc) and not any("kp1" in k for k in kept)
+            # the energies: the two operands of the actual reduction  f_k - f_kp1
+            en_names = set()
+            for st_ in walk_no_nested(fi.node):
+                if isinstance(st_, ast.Assign) and isinstance(st_.value, ast.BinOp) and isinstance(st_.value.op, ast.Sub) and "actual" in src(st_.targets[0]) \
+                        and isinstance(st_.value.left, ast.Name) and isinstance(st_.value.right, ast.Name):
+                    en_names |= {st_.value.left.id, st_.value.right.id}
+            if not en_names:
+                ctx.und("R17.6", key, "definition of the actual reduction not found", fi, sels[0])
+                en_names = None
+            has_f = en_names is None or (any(a in en_names for a in acc) and any(k in en_names for k in kept))
+            same = len(acc) == len(kept)
             if not has_f:
                 ctx.bad("R17.6", key, f"accepted {acc} / kept {kept}: the energy is not part of the selection, so the energy of a rejected proposal is carried on", fi, sels[0])
             else:
